@@ -872,6 +872,15 @@ func isInt(t types.Type) bool {
 	return ok && b.Info()&types.IsInteger != 0
 }
 
+func (r *Run) isGlobal(o *Obj) bool {
+	for _, g := range r.reg.Globals {
+		if g == o {
+			return true
+		}
+	}
+	return false
+}
+
 func (r *Run) lazy(o *Obj, path string, t types.Type) Val {
 	if r.reg.Lazy != nil {
 		if v := r.reg.Lazy(o, path, t); v != nil {
@@ -886,7 +895,8 @@ func (r *Run) lazy(o *Obj, path string, t types.Type) Val {
 		}
 		return vs
 	}
-	if r.reg.StalePrologue && r.reg.Start != nil && !r.entered && !o.Local {
+	if r.reg.StalePrologue && r.reg.Start != nil && !r.entered && !o.Local && !r.isGlobal(o) {
+		// (package-level tables are read-only after init: R17.1)
 		if _, isPtr := t.Underlying().(*types.Pointer); !isPtr {
 			r.stale = append(r.stale, staleCell{o, path})
 		}
